@@ -269,11 +269,11 @@ def gen(tier: str, seed: int) -> list[Case]:
         cases.append(Case(cid=f"c02-kw-{'nc' if naming else 'py'}", files=files, opts=opts, meta={"part": "keywords", "feats": feats, "naming": naming}, reach=REACH))
         files, feats = build_shape_package(gated)
         cases.append(Case(cid=f"c02-shapes-{'nc' if naming else 'py'}", files=files, opts=["-nc"] if naming else [], meta={"part": "shapes", "feats": feats, "naming": naming}, reach=REACH))
-    n_str = 10 if tier == "quick" else 150
+    n_str = 10 if tier == "quick" else 500
     for i in range(n_str):
         files, feats = build_string_package(rng, gated, 60, 6 if tier == "quick" else 12)
         cases.append(Case(cid=f"c02-str-{i}", files=files, opts=["-nc"] if i % 2 else [], meta={"part": "strings", "feats": feats}, reach=REACH))
-    n_doc = 3 if tier == "quick" else 40
+    n_doc = 3 if tier == "quick" else 150
     for i in range(n_doc):
         for style in STYLES:
             files, feats = build_doc_package(rng, gated, style, 24)
@@ -281,7 +281,7 @@ def gen(tier: str, seed: int) -> list[Case]:
     # (v) structure: nested class / enum bodies, generics, re-export files, rich type syntax
     from . import c05, c09
 
-    n_struct = 6 if tier == "quick" else 60
+    n_struct = 6 if tier == "quick" else 250
     for i in range(n_struct):
         files, info = c09.build_pair_package(rng, gated)
         files["src/pk/deep.py"] = deep_nesting_module(rng)
